@@ -35,6 +35,106 @@ func (c *Ctx) VerifiedBeforeSuccess(prop string) {
 		c.R.Anchor(rule, "driver", "no function sending commit messages found")
 		return
 	}
+	// the driver may have been split: T is the function that reports the generation's success (D itself, or its single static
+	// caller in the package); the reply collection, the key comparison and the window checks may each live in T or in a
+	// helper T calls. A check located in a helper H is linked to T's success by: H returns a nil error only after the check
+	// completed, and T's success returns are cut by [H(...) err == nil].
+	D0 := D
+	T := D
+	{
+		var callers []*ssa.Function
+		for _, cs := range c.staticCallers()[D] {
+			if cs.Parent() != nil && prog.PkgPathOf(cs.Parent()) == prog.PkgPathOf(D) {
+				callers = append(callers, cs.Parent())
+			}
+		}
+		if len(callers) == 1 && errResultIndex(D) >= 0 {
+			// only if the caller looks like the driver (it returns the key): otherwise D is the driver
+			isProto := false
+			for _, m := range p.Methods {
+				if m == callers[0] {
+					isProto = true
+				}
+			}
+			if !isProto && strings.Contains(strings.ToLower(callers[0].Name()), "distributed") || (!isProto && len(c.staticCallers()[callers[0]]) > 0 && callers[0].Signature.Results().Len() == 3) {
+				T = callers[0]
+			}
+		}
+	}
+	unit := []*ssa.Function{T}
+	for _, ci := range Calls(T, func(ci ssa.CallInstruction) bool {
+		g := ci.Common().StaticCallee()
+		return g != nil && g.Blocks != nil && !ci.Common().IsInvoke() && prog.PkgPathOf(g) == prog.PkgPathOf(T)
+	}) {
+		unit = append(unit, ci.Common().StaticCallee())
+	}
+	// successNeeds: every success return of T lies behind the completion edge `done` of a check located in fX
+	successNeeds := func(fX *ssa.Function, done func(b *ssa.BasicBlock, i int) bool) (bool, []string) {
+		kT := errResultIndex(T)
+		if fX == T {
+			for _, ret := range an.Returns(T) {
+				if !isNilConst(unwrapErr(an.Result(ret, kT))) {
+					continue
+				}
+				target := ssa.Instruction(ret)
+				if x, path := an.Cut(an.CutQuery{From: an.Entry(T), Target: func(i ssa.Instruction) bool { return i == target },
+					AcceptEdge: func(b *ssa.BasicBlock, i int, a *an.Atom) bool { return done(b, i) }}); x != nil {
+					return false, an.PathString(c.Pos, path)
+				}
+			}
+			return true, nil
+		}
+		kX := errResultIndex(fX)
+		if kX < 0 {
+			return false, []string{Fn(fX) + " returns no error"}
+		}
+		for _, ret := range an.Returns(fX) {
+			if !isNilConst(unwrapErr(an.Result(ret, kX))) {
+				continue
+			}
+			target := ssa.Instruction(ret)
+			if x, path := an.Cut(an.CutQuery{From: an.Entry(fX), Target: func(i ssa.Instruction) bool { return i == target },
+				AcceptEdge: func(b *ssa.BasicBlock, i int, a *an.Atom) bool { return done(b, i) }}); x != nil {
+				return false, append([]string{"in " + Fn(fX) + ":"}, an.PathString(c.Pos, path)...)
+			}
+		}
+		errs := map[ssa.Value]bool{}
+		for _, ci := range Calls(T, func(ci ssa.CallInstruction) bool { return ci.Common().StaticCallee() == fX }) {
+			for _, e := range errValuesOfCall(ci) {
+				errs[e] = true
+			}
+		}
+		for _, ret := range an.Returns(T) {
+			if !isNilConst(unwrapErr(an.Result(ret, kT))) {
+				continue
+			}
+			target := ssa.Instruction(ret)
+			if x, path := an.Cut(an.CutQuery{From: an.Entry(T), Target: func(i ssa.Instruction) bool { return i == target },
+				AcceptEdge: func(b *ssa.BasicBlock, i int, a *an.Atom) bool { return errNilAtom(a, errs) }}); x != nil {
+				return false, an.PathString(c.Pos, path)
+			}
+		}
+		return true, nil
+	}
+	// argument of T's call of fX that corresponds to fX's parameter v (identity if fX == T)
+	argInT := func(fX *ssa.Function, v ssa.Value) ssa.Value {
+		if fX == T {
+			return v
+		}
+		q, ok := v.(*ssa.Parameter)
+		if !ok {
+			return nil
+		}
+		for _, ci := range Calls(T, func(ci ssa.CallInstruction) bool { return ci.Common().StaticCallee() == fX }) {
+			for i, qq := range fX.Params {
+				if qq == q && i < len(ci.Common().Args) {
+					return ci.Common().Args[i]
+				}
+			}
+		}
+		return nil
+	}
+	_ = D0
 	// (a) reply collection loop: `for r := range ch`: iterations continue only past err == nil, non-empty key, non-empty signature
 	var recvHdr *ssa.BasicBlock
 	for _, b := range D.Blocks {
@@ -89,60 +189,70 @@ func (c *Ctx) VerifiedBeforeSuccess(prop string) {
 		}
 	}
 	// success returns
-	k := errResultIndex(D)
+	k := errResultIndex(T)
 	var succ []*ssa.Return
-	for _, ret := range an.Returns(D) {
+	for _, ret := range an.Returns(T) {
 		if isNilConst(unwrapErr(an.Result(ret, k))) {
 			succ = append(succ, ret)
 		}
 	}
 	c.R.Floor(rule, "success returns of the driver", len(succ), 1)
+	// the reply collection must have completed before success (it lives in D0)
+	if D0 != T {
+		if ok, wit := successNeeds(D0, func(b *ssa.BasicBlock, i int) bool { return recvHdr != nil && b == recvHdr && i == 1 }); !ok {
+			c.R.Fail(rule, Fn(T)+":replies", c.P.FuncPos(T), "the driver can report success although the collection of commit replies failed or did not complete", "success only past ["+Fn(D0)+" err == nil]", wit)
+		}
+	}
 	// (b) pairwise equality of the public keys: a full-range loop whose iterations continue only past bytes.Equal(keys[i], keys[...]) == true
 	var eqLoop *Loop
 	var keysRoot ssa.Value
-	for _, l := range FindLoops(D) {
-		if !l.FullRange || l.BoundLen == nil {
-			continue
-		}
-		l := l
-		ok := false
-		hdr := l.Header
-		x, _ := an.Cut(an.CutQuery{From: an.Point{Block: l.BodyFirst, Idx: 0}, Target: func(i ssa.Instruction) bool { return i == hdr.Instrs[0] },
-			AcceptEdge: func(b *ssa.BasicBlock, i int, a *an.Atom) bool {
-				if a == nil || a.Op != "true" {
+	var eqFn *ssa.Function
+	for _, uf := range unit {
+		for _, l := range FindLoops(uf) {
+			if !l.FullRange || l.BoundLen == nil {
+				continue
+			}
+			l := l
+			ok := false
+			hdr := l.Header
+			x, _ := an.Cut(an.CutQuery{From: an.Point{Block: l.BodyFirst, Idx: 0}, Target: func(i ssa.Instruction) bool { return i == hdr.Instrs[0] },
+				AcceptEdge: func(b *ssa.BasicBlock, i int, a *an.Atom) bool {
+					if a == nil || a.Op != "true" {
+						return false
+					}
+					call, isCall := isCallToName(a.LV, "bytes.Equal")
+					if !isCall {
+						return false
+					}
+					r1, i1, ok1 := elemLoad(call.Call.Args[0])
+					r2, _, ok2 := elemLoad(call.Call.Args[1])
+					if ok1 && ok2 && r1 == l.BoundLen && r2 == l.BoundLen && i1 == l.Idx {
+						ok = true
+						return true
+					}
 					return false
-				}
-				call, isCall := isCallToName(a.LV, "bytes.Equal")
-				if !isCall {
-					return false
-				}
-				r1, i1, ok1 := elemLoad(call.Call.Args[0])
-				r2, _, ok2 := elemLoad(call.Call.Args[1])
-				if ok1 && ok2 && r1 == l.BoundLen && r2 == l.BoundLen && i1 == l.Idx {
-					ok = true
-					return true
-				}
-				return false
-			}})
-		if x == nil && ok {
-			eqLoop, keysRoot = l, l.BoundLen
+				}})
+			if x == nil && ok {
+				eqLoop, keysRoot, eqFn = l, l.BoundLen, uf
+			}
 		}
 	}
 	if eqLoop == nil {
 		c.R.Fail(rule, Fn(D)+":same-key", c.P.FuncPos(D), "no scan comparing every participant's public key with its neighbour found", "for i := range pubKeys { pubKeys[i] == pubKeys[(i+1)%n] or fail }", nil)
 	} else {
-		for _, ret := range succ {
-			target := ssa.Instruction(ret)
+		{
 			hdr, exitB := eqLoop.Header, eqLoop.Exit
-			if x, path := an.Cut(an.CutQuery{From: an.Entry(D), Target: func(i ssa.Instruction) bool { return i == target },
-				AcceptEdge: func(b *ssa.BasicBlock, i int, a *an.Atom) bool { return b == hdr && b.Succs[i] == exitB }}); x != nil {
-				c.R.Fail(rule, Fn(D)+":same-key", c.Pos(ret), "success is reachable without the comparison of all participants' public keys having completed", "success only after the pairwise comparison", an.PathString(c.Pos, path))
+			if ok, wit := successNeeds(eqFn, func(b *ssa.BasicBlock, i int) bool { return b == hdr && b.Succs[i] == exitB }); !ok {
+				c.R.Fail(rule, Fn(D)+":same-key", c.P.FuncPos(T), "success is reachable without the comparison of all participants' public keys having completed", "success only after the pairwise comparison", wit)
 			} else {
-				c.R.OK(rule, Fn(D)+":same-key", c.Pos(ret), "success only after every participant's key was compared equal to its neighbour's (cyclically)")
+				c.R.OK(rule, Fn(D)+":same-key", c.P.FuncPos(T), "success only after every participant's key was compared equal to its neighbour's (cyclically)")
 			}
+		}
+		keysInT := argInT(eqFn, keysRoot)
+		for _, ret := range succ {
 			// (d) the key returned is keys[0]
 			root, idx, ok := elemLoad(an.Result(ret, 0))
-			if !ok || root != keysRoot || !an.IsConstInt(idx, 0) {
+			if !ok || keysInT == nil || root != sliceRootExact(keysInT) || !an.IsConstInt(idx, 0) {
 				c.R.Fail(rule, Fn(D)+":returned-key", c.Pos(ret), "the key returned to the client is not one of the compared keys: "+an.Term(an.Result(ret, 0)), "return pubKeys[0]", nil)
 			} else {
 				c.R.OK(rule, Fn(D)+":returned-key", c.Pos(ret), "the key returned is pubKeys[0] of the compared list")
@@ -151,22 +261,30 @@ func (c *Ctx) VerifiedBeforeSuccess(prop string) {
 	}
 	// (c) every window: recover error-free and verification true before the next window / success
 	var recover, verify ssa.CallInstruction
-	for _, ci := range Calls(D, func(ci ssa.CallInstruction) bool {
-		f := ci.Common().StaticCallee()
-		return f != nil && (f.Name() == "Recover" || f.Name() == "VerifyByte") && strings.Contains(f.String(), "bls.Sign")
-	}) {
-		if ci.Common().StaticCallee().Name() == "Recover" {
-			recover = ci
-		} else {
-			verify = ci
+	W := T
+	for _, uf := range unit {
+		for _, ci := range Calls(uf, func(ci ssa.CallInstruction) bool {
+			f := ci.Common().StaticCallee()
+			return f != nil && (f.Name() == "Recover" || f.Name() == "VerifyByte") && strings.Contains(f.String(), "bls.Sign")
+		}) {
+			W = uf
+			if ci.Common().StaticCallee().Name() == "Recover" {
+				recover = ci
+			} else {
+				verify = ci
+			}
 		}
+	}
+	if recover != nil && verify != nil && recover.Parent() != verify.Parent() {
+		c.R.Unknown(rule, Fn(D)+":windows", c.Pos(recover), "recover and verify are in different functions")
+		return
 	}
 	if recover == nil || verify == nil {
 		c.R.Fail(rule, Fn(D)+":windows", c.P.FuncPos(D), "the driver does not recover and verify composite confirmation signatures", "for each window of t signatures: Recover ok and VerifyByte(pubKey, confirmationData) true", nil)
 		return
 	}
 	var win *RotLoop
-	for _, l := range FindRotLoops(D) {
+	for _, l := range FindRotLoops(W) {
 		if l.Body[recover.Block()] && l.Body[verify.Block()] {
 			if win == nil || len(l.Body) > len(win.Body) {
 				win = l
@@ -200,13 +318,17 @@ func (c *Ctx) VerifiedBeforeSuccess(prop string) {
 	}
 	// the key verified against is deserialised from pubKeys[0]; the data is the confirmation data sent in commit
 	okKey := false
-	for _, ci := range Calls(D, func(ci ssa.CallInstruction) bool {
+	keysInT := argInT(eqFn, keysRoot)
+	for _, ci := range Calls(W, func(ci ssa.CallInstruction) bool {
 		f := ci.Common().StaticCallee()
 		return f != nil && f.Name() == "Deserialize" && strings.Contains(f.String(), "PublicKey")
 	}) {
 		if ci.Common().Args[0] == verify.Common().Args[1] {
-			if root, idx, ok := elemLoad(ci.Common().Args[1]); ok && root == keysRoot && an.IsConstInt(idx, 0) {
-				okKey = true
+			if root, idx, ok := elemLoad(ci.Common().Args[1]); ok && an.IsConstInt(idx, 0) {
+				// the list indexed is the compared list (the same value in T)
+				if kw := argInT(W, root); kw != nil && keysInT != nil && sliceRootExact(kw) == sliceRootExact(keysInT) {
+					okKey = true
+				}
 			}
 		}
 	}
@@ -215,26 +337,13 @@ func (c *Ctx) VerifiedBeforeSuccess(prop string) {
 	} else {
 		c.R.OK(rule, Fn(D)+":windows:key", c.Pos(verify), "verified against the key deserialised from pubKeys[0]")
 	}
-	// success only after the window loop
-	for _, ret := range succ {
-		target := ssa.Instruction(ret)
-		if x, path := an.Cut(an.CutQuery{From: an.Entry(D), Target: func(i ssa.Instruction) bool { return i == target },
-			AcceptEdge: func(b *ssa.BasicBlock, i int, a *an.Atom) bool {
-				return (b == win.Latch && b.Succs[i] == win.Done)
-			}}); x != nil {
-			// the only other way past the loop is its pre-header with zero windows; report that precisely
-			viaPre := false
-			for _, st := range path {
-				if st.Block == win.Pre {
-					viaPre = true
-				}
-			}
-			if viaPre {
-				c.R.Notes = append(c.R.Notes, "C12.O2: the window loop can be skipped when len(participants)+1-threshold <= 0; excluded by C12.O1 (t <= n) given that the peers service returns n participants (not decided)")
-				continue
-			}
-			c.R.Fail(rule, Fn(D)+":windows:order", c.Pos(ret), "success is reachable without the window checks having completed", "success only after all windows verified", an.PathString(c.Pos, path))
-		}
+	// success only after the window loop (its zero-iteration bypass is the pre-header edge, see the note)
+	if ok, wit := successNeeds(W, func(b *ssa.BasicBlock, i int) bool {
+		return (b == win.Latch && b.Succs[i] == win.Done) || (b == win.Pre && b.Succs[i] == win.Done)
+	}); !ok {
+		c.R.Fail(rule, Fn(D)+":windows:order", c.P.FuncPos(T), "success is reachable without the window checks having completed", "success only after all windows verified", wit)
+	} else {
+		c.R.Notes = append(c.R.Notes, "C12.O2: the window loop can be skipped when len(participants)+1-threshold <= 0; excluded by C12.O1 (t <= n) given that the peers service returns n participants (not decided)")
 	}
 }
 
